@@ -127,6 +127,30 @@ impl<R: io::Read> Parse<R> for Option<i64> {
 }
 
 
+//------------ read_exact_vec ------------------------------------------------
+
+/// Reads exactly `len` bytes into a new vec.
+///
+/// The length typically comes from the data itself and cannot be trusted.
+/// So, rather than allocating a buffer of that size up front, we let the
+/// vec grow with the data actually available.
+fn read_exact_vec<R: io::Read>(
+    source: &mut R, len: usize
+) -> Result<Vec<u8>, io::Error> {
+    let limit = u64::try_from(len).map_err(|_| {
+        io::Error::other("excessively large length")
+    })?;
+    let mut res = Vec::with_capacity(cmp::min(len, 65536));
+    let mut source = io::Read::take(source, limit);
+    if io::Read::read_to_end(&mut source, &mut res)? != len {
+        return Err(io::Error::new(
+            io::ErrorKind::UnexpectedEof, "unexpected end of data"
+        ))
+    }
+    Ok(res)
+}
+
+
 //----------- uri::Rsync -----------------------------------------------------
 //
 // Encoded as a u32 for the length and then that many bytes. If the length
@@ -148,8 +172,7 @@ impl<R: io::Read> Parse<R> for uri::Rsync {
         let len = usize::try_from(u32::parse(source)?).map_err(|_| {
             ParseError::format("URI too large for this system")
         })?;
-        let mut bits = vec![0u8; len];
-        source.read_exact(&mut bits)?;
+        let bits = read_exact_vec(source, len)?;
         Self::from_bytes(bits.into()).map_err(|err| {
             ParseError::format(format!("bad URI: {err}"))
         })
@@ -176,8 +199,7 @@ impl<R: io::Read> Parse<R> for uri::Https {
         let len = usize::try_from(u32::parse(source)?).map_err(|_| {
             ParseError::format("URI too large for this system")
         })?;
-        let mut bits = vec![0u8; len];
-        source.read_exact(&mut bits)?;
+        let bits = read_exact_vec(source, len)?;
         Self::from_bytes(bits.into()).map_err(|err| {
             ParseError::format(format!("bad URI: {err}"))
         })
@@ -215,8 +237,7 @@ impl<R: io::Read> Parse<R> for Option<uri::Https> {
         let len = usize::try_from(len).map_err(|_| {
             ParseError::format("URI too large for this system")
         })?;
-        let mut bits = vec![0u8; len];
-        source.read_exact(&mut bits)?;
+        let bits = read_exact_vec(source, len)?;
         uri::Https::from_bytes(bits.into()).map_err(|err| {
             ParseError::format(format!("bad URI: {err}"))
         }).map(Some)
@@ -243,8 +264,7 @@ impl<R: io::Read> Parse<R> for Bytes {
         let len = usize::try_from(u64::parse(source)?).map_err(|_| {
             ParseError::format("data block too large for this system")
         })?;
-        let mut bits = vec![0u8; len];
-        source.read_exact(&mut bits)?;
+        let bits = read_exact_vec(source, len)?;
         Ok(bits.into())
     }
 }
@@ -275,8 +295,7 @@ impl<R: io::Read> Parse<R> for Option<Bytes> {
         let len = usize::try_from(len).map_err(|_| {
             ParseError::format("data block large for this system")
         })?;
-        let mut bits = vec![0u8; len];
-        source.read_exact(&mut bits)?;
+        let bits = read_exact_vec(source, len)?;
         Ok(Some(bits.into()))
     }
 }
@@ -414,7 +433,7 @@ where
         // to be very big. We will hit the end of file if it was during
         // reading, so I don’t think we need any additional measures?
         let mut res = HashMap::with_capacity(
-            cmp::max(len, 65536)
+            cmp::min(len, 65536)
         );
         
         for _ in 0..len {
